@@ -2,6 +2,7 @@
 //!
 //! Case kinds (one per line):
 //!   G [@<init>:<F|M><n>:<max|->] <tok> <tok> ...      value-graph script (see `run_graph`)
+//!   M ...                                            same script syntax; malformed blocks: no structural read-back
 //!   X <src as hex code points> [k=<max single injections>]   program with `optimize` injected at step boundaries
 //!
 //! Output: <case>\t<result>\t<oracle>
@@ -522,6 +523,11 @@ fn strip_addrs(s: &str) -> String {
     out
 }
 
+/// `-` for malformed-heap scripts (kind M): the getters may loop or panic there.
+fn gsnap(on: bool, d: &D, syms: &[u64], keep: &[(String, usize)]) -> String {
+    if on { snapshot(d, syms, keep) } else { "-".to_string() }
+}
+
 fn symtab_syms(d: &D) -> Vec<u64> {
     let lay = d.verif_block_layout();
     let heap = d.verif_heap();
@@ -536,6 +542,7 @@ fn symtab_syms(d: &D) -> Vec<u64> {
 
 // ------------------------------------------------------------------ graph scripts
 struct G {
+    snap: bool,
     d: D,
     cfg: String,
     slots: Vec<Option<usize>>,
@@ -583,7 +590,7 @@ fn keep_list(g: &G, extra: &[usize]) -> Vec<(String, usize)> {
 fn do_opt(g: &mut G, roots: Vec<usize>, root_slots: Vec<usize>) {
     let pre = raw_state(&g.d, &g.cfg);
     let keep_pre = keep_list(g, &roots);
-    let spre = snapshot(&g.d, &g.syms, &keep_pre);
+    let spre = gsnap(g.snap, &g.d, &g.syms, &keep_pre);
     let ret = g.d.data_retention_count();
     let r = catch(|| g.d.optimize(&roots));
     let post = raw_state(&g.d, &g.cfg);
@@ -610,9 +617,9 @@ fn do_opt(g: &mut G, roots: Vec<usize>, root_slots: Vec<usize>) {
             for (i, sl) in root_slots.iter().enumerate() {
                 g.slots[*sl] = Some(m[i]);
             }
-            snapshot(&g.d, &g.syms, &keep_post)
+            gsnap(g.snap, &g.d, &g.syms, &keep_post)
         }
-        None => match catch(|| snapshot(&g.d, &g.syms, &keep_pre)) {
+        None => match catch(|| gsnap(g.snap, &g.d, &g.syms, &keep_pre)) {
             Ok(s) => s,
             Err(_) => "SNAPPANIC".to_string(),
         },
@@ -640,7 +647,7 @@ fn do_clone(g: &mut G, addr: usize) {
         }
     }
     keep.push(("A".to_string(), addr));
-    let spre = snapshot(&g.d, &g.syms, &keep);
+    let spre = gsnap(g.snap, &g.d, &g.syms, &keep);
     let r = catch(|| g.d.clone_data(addr));
     let post = raw_state(&g.d, &g.cfg);
     let res = match &r {
@@ -656,7 +663,7 @@ fn do_clone(g: &mut G, addr: usize) {
         }
         _ => g.slots.push(None),
     }
-    let spost = match catch(|| snapshot(&g.d, &g.syms, &keep_post)) {
+    let spost = match catch(|| gsnap(g.snap, &g.d, &g.syms, &keep_post)) {
         Ok(s) => s,
         Err(_) => "SNAPPANIC".to_string(),
     };
@@ -868,7 +875,7 @@ fn settings_of(s: &str) -> (StorageSettings, String) {
     (StorageSettings::new(init, max, strat), format!("{}:{}", p[1], p[2]))
 }
 
-fn run_graph(rest: &str) -> (String, String) {
+fn run_graph(rest: &str, snap: bool) -> (String, String) {
     let mut toks: Vec<&str> = rest.split(' ').filter(|x| !x.is_empty()).collect();
     let (ds, cfg) = if !toks.is_empty() && toks[0].starts_with('@') {
         let t = toks.remove(0);
@@ -888,7 +895,7 @@ fn run_graph(rest: &str) -> (String, String) {
         Ok(d) => d,
         Err(_) => return ("NEWERR".to_string(), "-".to_string()),
     };
-    let mut g = G { d, cfg, slots: vec![], syms: vec![], records: vec![] };
+    let mut g = G { snap, d, cfg, slots: vec![], syms: vec![], records: vec![] };
     let mut status = "done".to_string();
     for t in toks {
         match catch(|| graph_token(&mut g, t)) {
@@ -1104,7 +1111,8 @@ fn main() {
         let (kind, rest) = line.split_at(1);
         let rest = rest.trim_start();
         let r = catch(|| match kind {
-            "G" => run_graph(rest),
+            "G" => run_graph(rest, true),
+            "M" => run_graph(rest, false),
             "X" => run_x(rest),
             _ => ("BADCASE".to_string(), "-".to_string()),
         });
